@@ -1,6 +1,7 @@
 (* C01 correspondence run.
    case  L [I 0; state; genby; date] -> L [written file; table loaded from the sample copy;
-                                            table loaded from the observation copy]
+                                            table loaded from the observation copy;
+                                            does the case satisfy the hypotheses of hdf5_roundtrip]
    case  L [I 1; bytes]              -> the strict UTF-8 decoder on arbitrary bytes
    case  L [I 2; text]               -> escape / unescape of a category name *)
 From Coq Require Import List Bool ZArith.
@@ -14,7 +15,8 @@ Definition run (t : Tree) : Tree :=
     let w := to_hdf5 st (tLZ (tnth t 2)) (tLZ (tnth t 3)) in
     L [eResult eH5 w;
        eResult eLoaded (bind w (fun f => from_hdf5 f Samp));
-       eResult eLoaded (bind w (fun f => from_hdf5 f Obs))]
+       eResult eLoaded (bind w (fun f => from_hdf5 f Obs));
+       eB (in_domainb st (tLZ (tnth t 2)) (tLZ (tnth t 3)))]
   | 1%Z => eOpt eLZ (utf8_decode (tLZ (tnth t 1)))
   | _ => L [eLZ (utf8_encode (sanitize (tLZ (tnth t 1)))); eLZ (unsanitize (sanitize (tLZ (tnth t 1))))]
   end.
